@@ -11,6 +11,8 @@
 //	hwrite <db> <rp> <prec> <lines> always POST /kapacitor/v1/write: `db`/`rp` = % means "parameter absent", <prec> one of
 //	                                - n u ms s, a line `!k` is the k-th malformed line of a pool  => ok | err:<status>
 //	cwrite <db> <rp> <w1>&<w2>&…    one goroutine per writer, each calling WritePoints with its points, all at once
+//	drain                           TaskMaster.Drain: every fork is deleted, the executions end; WritePoints is closed for good
+//	swrite <db> <rp> <points>       points fed through a StreamCollector of tm.Stream(name) (works after a drain too)
 //	final <id> <i>                  => ids of the points the sink under the i-th from() of task <id> recorded, in order
 //	quiesce                         => number of waits that timed out (0 unless the implementation lost points)
 //
@@ -42,6 +44,7 @@ import (
 	"github.com/influxdata/kapacitor"
 	"github.com/influxdata/kapacitor/edge"
 	kexpvar "github.com/influxdata/kapacitor/expvar"
+	"github.com/influxdata/kapacitor/models"
 	"github.com/influxdata/kapacitor/server/vars"
 
 	"verifharness/kit"
@@ -398,24 +401,26 @@ func sortStrings(a []string) {
 var shortWaits bool
 
 type runner struct {
-	tm        *kit.TM
-	http      bool
-	defRP     string
-	running   map[string]*taskDef
-	everDef   map[string]int // task id -> max number of from-nodes ever started under it
-	order     []string       // task ids in first-start order
-	expected  map[string]int // sink key -> number of points expected so far
-	written   int64
-	base      int64
-	timeouts  int
-	waitLimit time.Duration
-	store     *snapStore
-	noise     int64 // points of the background writer handed to WritePoints so far (atomic)
-	noiseStop chan struct{}
-	noiseDone chan struct{}
-	wrote     map[int64]*wpoint
-	epochs    map[string][]epoch // sink key -> which from-node definition recorded from which index on
-	hung      string // set when a call into the real code did not return (the process must then exit)
+	tm         *kit.TM
+	http       bool
+	defRP      string
+	running    map[string]*taskDef
+	everDef    map[string]int // task id -> max number of from-nodes ever started under it
+	order      []string       // task ids in first-start order
+	expected   map[string]int // sink key -> number of points expected so far
+	written    int64
+	base       int64
+	timeouts   int
+	waitLimit  time.Duration
+	store      *snapStore
+	stream     kapacitor.StreamCollector // tm.Stream("c02"), made on first use
+	lastSource string
+	noise      int64 // points of the background writer handed to WritePoints so far (atomic)
+	noiseStop  chan struct{}
+	noiseDone  chan struct{}
+	wrote      map[int64]*wpoint
+	epochs     map[string][]epoch // sink key -> which from-node definition recorded from which index on
+	hung       string             // set when a call into the real code did not return (the process must then exit)
 }
 
 type epoch struct {
@@ -770,7 +775,17 @@ func (r *runner) accepted(db, rp string, pts []*point, times map[int64]time.Time
 	}
 }
 
+// source: WritePoints and a StreamCollector feed two different forking goroutines; the order between points of
+// different sources is only defined once the earlier ones have been forked.
+func (r *runner) source(which string) {
+	if r.lastSource != "" && r.lastSource != which {
+		r.waitForked()
+	}
+	r.lastSource = which
+}
+
 func (r *runner) write(db, rp string, pts []*point) string {
+	r.source("writepoints")
 	times := map[int64]time.Time{}
 	if r.http {
 		var body bytes.Buffer
@@ -791,6 +806,9 @@ func (r *runner) write(db, rp string, pts []*point) string {
 		if hung {
 			return "hang"
 		}
+		if err == kapacitor.ErrTaskMasterClosed {
+			return "err:closed"
+		}
 		if err != nil {
 			return "err:write"
 		}
@@ -799,11 +817,67 @@ func (r *runner) write(db, rp string, pts []*point) string {
 	return "ok"
 }
 
+// swrite feeds points through a StreamCollector (the API replays and the upstream tests use); it is not closed by Drain.
+func (r *runner) swrite(db, rp string, pts []*point) string {
+	r.source("stream")
+	if r.stream == nil {
+		st, err := r.tm.TM.Stream("c02")
+		if err != nil {
+			return "err:stream"
+		}
+		r.stream = st
+	}
+	err, hung := r.call("StreamCollector.CollectPoint", func() error {
+		for _, p := range pts {
+			tags := models.Tags{}
+			if p.host != "" {
+				tags["host"] = p.host
+			}
+			pm := edge.NewPointMessage(p.name, db, rp, models.Dimensions{}, models.Fields{"id": p.id, "v": p.v}, tags, origTime(p.id))
+			if e := r.stream.CollectPoint(pm); e != nil {
+				return e
+			}
+		}
+		return nil
+	})
+	if hung {
+		return "hang"
+	}
+	if err != nil {
+		return "err:write"
+	}
+	r.accepted(db, rp, pts, nil)
+	return "ok"
+}
+
+// drain: TaskMaster.Drain. Everything written is forked and has reached the sinks before (Drain itself waits for the
+// forking goroutine of WritePoints only).
+func (r *runner) drain() string {
+	r.waitForked()
+	all := map[string]bool{}
+	for id := range r.running {
+		all[id] = true
+	}
+	r.waitSinks(all, true)
+	if r.stream != nil {
+		// Drain waits for EVERY forking goroutine: an open StreamCollector would block it (the upstream tests close theirs first)
+		r.stream.Close()
+		r.stream = nil
+	}
+	_, hung := r.call("TaskMaster.Drain", func() error { r.tm.TM.Drain(); return nil })
+	if hung {
+		return "hang"
+	}
+	r.running = map[string]*taskDef{}
+	return "ok"
+}
+
 // malformed line-protocol lines (each makes models.ParsePointsWithPrecision fail)
 var badLines = []string{"cpu_without_fields", "cpu v=", "cpu,host= v=1i", "cpu v=1i notatime"}
 
 // hwrite: one HTTP request; lines[i] == nil is a malformed line (bad[i] says which).
 func (r *runner) hwrite(db, rp, prec string, hasDB, hasRP bool, lines []*point, bad []int) string {
+	r.source("writepoints")
 	var body bytes.Buffer
 	times := map[int64]time.Time{}
 	var good []*point
@@ -826,6 +900,7 @@ func (r *runner) hwrite(db, rp, prec string, hasDB, hasRP bool, lines []*point, 
 
 // cwrite: several writers at once, one WritePoints call each.
 func (r *runner) cwrite(db, rp string, writers [][]*point) string {
+	r.source("writepoints")
 	var batches [][]imodels.Point
 	for _, w := range writers {
 		mps, ok := r.mkPoints(w)
@@ -1029,6 +1104,32 @@ func execCase(ops []string) (out []string, hung string) {
 				continue
 			}
 			guard(line, func() string { return r.start(&taskDef{id: id, dbrps: dbrps, froms: froms}, t[0] == "startfail") })
+		case "drain":
+			guard(line, func() string { return r.drain() })
+		case "swrite":
+			if len(t) != 4 {
+				out = append(out, line+" => badop")
+				continue
+			}
+			db, _ := kit.Unesc(t[1])
+			rp, _ := kit.Unesc(t[2])
+			var pts []*point
+			var toks []string
+			ok := rp != ""
+			for _, x := range strings.Split(t[3], ",") {
+				p, err := parsePoint(x)
+				if err != nil {
+					ok = false
+					break
+				}
+				pts, toks = append(pts, p), append(toks, pointTok(p))
+			}
+			if !ok {
+				out = append(out, line+" => badop")
+				continue
+			}
+			line = fmt.Sprintf("swrite %s %s %s", t[1], t[2], strings.Join(toks, ","))
+			guard(line, func() string { return r.swrite(db, rp, pts) })
 		case "stop", "delete":
 			id, _ := kit.Unesc(t[1])
 			guard(line, func() string { return r.stop(id, t[0] == "delete") })
@@ -1128,6 +1229,9 @@ func execCase(ops []string) (out []string, hung string) {
 	// final read-out: everything forked, every running task's sinks complete and quiet, then close
 	r.stopNoise()
 	r.waitForked()
+	if r.stream != nil && r.hung == "" {
+		r.stream.Close() // its forking goroutine ends; everything it was given has been forked
+	}
 	all := map[string]bool{}
 	for id := range r.running {
 		all[id] = true
